@@ -122,6 +122,8 @@ class ExceptIf(ConclusionSelector):
         Evaluate the ExceptIf condition and yield the results.
         """
         self._eval_parent_ = parent
+        # conclusions selected for a row of an iterator that was abandoned at that row must not leak into this evaluation
+        self._conclusion_.clear()
         # init an empty source if none is provided
         sources = sources or HashedIterable()
 
@@ -171,6 +173,7 @@ class Alternative(ElseIf, ConclusionSelector):
         sources: Optional[Dict[int, HashedValue]] = None,
         parent: Optional[SymbolicExpression] = None,
     ) -> Iterable[OperationResult]:
+        self._conclusion_.clear()  # (left over if an earlier iterator was abandoned at one of our rows)
         outputs = super()._evaluate__(sources, parent=parent)
         for output in outputs:
             # Only yield if conclusions were successfully added (not duplicates)
@@ -193,6 +196,7 @@ class Next(EQLUnion, ConclusionSelector):
         sources: Optional[Dict[int, HashedValue]] = None,
         parent: Optional[SymbolicExpression] = None,
     ) -> Iterable[OperationResult]:
+        self._conclusion_.clear()  # (left over if an earlier iterator was abandoned at one of our rows)
         outputs = super()._evaluate__(sources, parent=parent)
         for output in outputs:
             if self.left_evaluated:
